@@ -1,26 +1,36 @@
 (** C20 — Simulated travellers with promises are never refused; documented configs run.
-    PARTIAL.  Proved here, for every NumOps instance (bit-exact float64 included), every predictor,
-    every balance and every book:
-    (a) the steps of the argument that a traveller-bot holding a made promise is not refused:
-        - while the kept promise of the previous trip is in the book, the traveller is cleared from the
-          start of the next promised trip on (book invariant of C09: each clearance is no later than
-          the next trip's start; Cleared() refreshes the kept clearance from the book);
-        - a new proposal never drops a promise whose clearance date has not passed (the repaired room
-          rule), and in the new book its clearance is again no later than the start of every later
-          promised trip, the new one included;
-        - once it has left the book the stored clearance stands, and it has passed;
-        - the return leg is checked in mid-trip, which is never refused;
-        (the promise is recorded as kept when the promised trip is flown: C08 theorems);
-    (b) the trial period: in every state reachable without a debiting check-in every balance is zero,
+    PARTIAL (what is partial is named at the end of this comment).  Proved here, for every NumOps
+    instance (bit-exact float64 included), every balance, every share and every parameter set:
+    (a) WHOLE HISTORIES ([C20_bot_history_every_checkin_accepted]): for one traveller, any number of
+        plannings (Propose + Make), check-ins and daily updates in any interleaving, starting from no
+        record at all: if the history follows the traveller-bot's discipline ([conforms]: time does not
+        run backwards; flights are reported in time order; a departure is for a promised trip not yet
+        flown, at or after its promised start; planning happens no later than the start of the day of
+        any promised trip not yet flown and the new trip starts after the last one flown; the trip
+        rules do not close a trip by themselves, i.e. trips are closed by keeping their promise;
+        predictors answer day numbers in range) then EVERY check-in is accepted - no check-in for a
+        promised trip or its return is refused, whatever the debt.  The invariant behind it: between
+        trips the kept promise covers the traveller - its entry is in the book with a clearance date
+        that is the stored one or has been brought forward to the day a not-yet-flown trip starts, or
+        it has left the book only after its clearance date passed (the repaired room rule).
+        [C20_checked_history_every_checkin_accepted] is the runnable form: a boolean check of the
+        discipline, evaluated by the kernel on a concrete history, implies acceptance;
+        [C20_engine_history_every_checkin_accepted] lifts it to the engine: any number of travellers,
+        SubmitFlights / Propose+Make / UpdateTripsAndBackfill (any thread setting) / SetParams in any
+        interleaving from an empty table, each traveller's part of the history following the discipline;
+    (b) the steps of that argument as separate theorems (kept from earlier rounds);
+    (c) the trial period: in every state reachable without a debiting check-in every balance is zero,
         no check-in of any number of flights is refused as grounded, and the daily update credits nobody.
-    NOT proved: the induction of (a) over whole simulation histories (interleaving of proposals,
-    updates and check-ins of one traveller over many days), and anything about the 1000-line
+    NOT proved: that a simulation run IS a conforming history (this needs the trip rules of C05/C06
+    for the configured trip lengths and the planner of pkg/model), and anything about the 1000-line
     simulation driver (configuration handling, planning threads, reporting, files).  Both are
     exercised on every run: protocol histories on the real flap.Engine compared call by call with the
     model, and the real Build/Run in child processes over generated worlds and configurations. *)
 From Coq Require Import ZArith List Bool.
+From Coq Require Import Lia.
 From Flap Require Import Model.Num Model.NumF Model.NumZ Model.TripHistory Model.Promises Model.Predictor Model.Engine
-  Proofs.PromisesP Proofs.ClearedP Proofs.EngineInv Proofs.UpdateAllP Proofs.ProtocolP Proofs.TrialP.
+  Proofs.PromisesP Proofs.PromisesFrameP Proofs.ClearedP Proofs.EngineInv Proofs.UpdateAllP Proofs.ProtocolP Proofs.TrialP
+  Proofs.TableP Proofs.HistoryP Proofs.HistoryEngineP.
 Import ListNotations.
 Open Scope Z_scope.
 
@@ -96,6 +106,116 @@ Theorem C20_trial_update_credits_nobody : forall (N : NumOps),
   TZb tb -> count_grounded p share now tb = 0.
 Proof. exact @trial_update_credits_nobody. Qed.
 Print Assumptions C20_trial_update_credits_nobody.
+
+(** ---- whole histories ---- *)
+Theorem C20_bot_history_every_checkin_accepted : forall (N : NumOps) mx, 1 <= mx ->
+  forall (evs : list (@ev N)) clk now,
+  conforming mx clk (new_traveller now) evs -> all_accepted mx (new_traveller now) evs.
+Proof. exact @bot_history_never_refused. Qed.
+Print Assumptions C20_bot_history_every_checkin_accepted.
+
+(** from any state that satisfies the invariant (not only a new traveller) *)
+Theorem C20_conforming_history_every_checkin_accepted : forall (N : NumOps) mx, 1 <= mx ->
+  forall (evs : list (@ev N)) clk (t : traveller N),
+  J mx clk t -> conforming mx clk t evs -> all_accepted mx t evs.
+Proof. exact @conforming_history_all_accepted. Qed.
+Print Assumptions C20_conforming_history_every_checkin_accepted.
+
+(** each step keeps the invariant and accepts the check-in *)
+Theorem C20_step_keeps_invariant : forall (N : NumOps) mx, 1 <= mx ->
+  forall clk (t : traveller N) e,
+  J mx clk t -> conforms clk t e -> accepted t e /\ J mx (ev_time e) (apply_ev mx t e).
+Proof. exact @step_J. Qed.
+Print Assumptions C20_step_keeps_invariant.
+
+(** runnable form: the discipline decided by computation *)
+Theorem C20_checked_history_every_checkin_accepted : forall (N : NumOps) mx, 1 <= mx ->
+  forall (evs : list (@ev N)) clk now,
+  Forall ev_pred_ok evs -> conformingb mx clk (new_traveller now) evs = true ->
+  all_acceptedb mx (new_traveller now) evs = true.
+Proof. exact @checked_history_all_accepted. Qed.
+Print Assumptions C20_checked_history_every_checkin_accepted.
+
+(** ---- whole histories of the engine: any number of travellers ---- *)
+Theorem C20_engine_history_every_checkin_accepted : forall (N : NumOps) mx, 1 <= mx ->
+  forall (xs : list (@xev N)) clk (a : admin N),
+  x_conforming mx clk {| e_admin := a; e_table := [] |} xs ->
+  x_all_accepted {| e_admin := a; e_table := [] |} xs.
+Proof. exact @fresh_engine_history_all_accepted. Qed.
+Print Assumptions C20_engine_history_every_checkin_accepted.
+
+Theorem C20_engine_step_keeps_invariant : forall (N : NumOps) mx, 1 <= mx ->
+  forall clk (e : engine N) x,
+  EJ mx clk e -> x_conforms mx clk e x -> x_accepted e x /\ EJ mx (x_time clk x) (x_apply e x).
+Proof. exact @x_step. Qed.
+Print Assumptions C20_engine_step_keeps_invariant.
+
+(** what an accepted proposal does to the promises already made *)
+Theorem C20_proposal_frame : forall (N : NumOps) mx (b : book N) ts te d tr now (pr : predictor N) pp,
+  Inv mx b -> propose b ts te d tr now pr mx = inl pp ->
+  exists i, (i < MaxPromises)%nat /\ now <= ts /\ ts <> 0 /\
+    core (getp (pp_entries pp) i) = (ts, te, d, tr) /\
+    (forall m, (m < i)%nat -> core (getp (pp_entries pp) m) = core (getp b m) /\ ts < p_ts (getp b m)) /\
+    (forall m, (i <= m)%nat -> (S m < MaxPromises)%nat -> core (getp (pp_entries pp) (S m)) = core (getp b m)) /\
+    (forall m, (i < m)%nat -> (S m < MaxPromises)%nat -> getp (pp_entries pp) (S m) = getp b m) /\
+    ((S i < MaxPromises)%nat ->
+       p_clear (getp (pp_entries pp) (S i)) = p_clear (getp b i) \/
+       p_clear (getp (pp_entries pp) (S i)) = day_start ts) /\
+    (p_ts (getp b (MaxPromises - 1)) <> 0 -> p_clear (getp b (MaxPromises - 1)) < now).
+Proof. exact @propose_frame. Qed.
+Print Assumptions C20_proposal_frame.
+
+Theorem C20_clearance_dates_stay_positive : forall (N : NumOps) mx (b : book N) ts te d tr now (pr : predictor N) pp,
+  SecondsInDay <= now -> te < tmax -> Inv mx b -> Pos b -> pred_ok pr ->
+  propose b ts te d tr now pr mx = inl pp -> Pos (pp_entries pp).
+Proof. exact @propose_pos. Qed.
+Print Assumptions C20_clearance_dates_stay_positive.
+
+(** non-vacuity of the whole-history theorem: a history of two promised trips in exact arithmetic.  The
+    traveller plans a trip, flies out and back, the promise is kept; a second trip is planned that
+    starts before the kept promise's clearance date, so that date is brought forward in the book while
+    the stored copy stays stale; two daily shares later the traveller is still 1800 in debt and checks
+    in for the second trip.  The history passes the discipline check, so the check-in is accepted. *)
+Definition ex_day (n : Z) : Z := n * 86400.
+Definition ex_pred : predictor NumZ :=
+  @mkPred NumZ (fun (_ : Z) s => if (1 <=? s) && (s <? 1000000) then Some (s + 5) else None) (fun _ _ => Some 0) 7.
+Definition ex_params : params NumZ := @mkParams NumZ 30 50 2 1000 1 1 10 100 3 1 1 1 0 1.
+Definition ex_flight (st en from to dist : Z) : flight NumZ := @mkFlight NumZ Fl st en from to dist.
+Definition ex_history : list (@ev NumZ) :=
+  [ @EPlan NumZ (ex_day 10) (ex_day 12 + 86399) 2000 2000 (ex_day 5) ex_pred;
+    @ECheckin NumZ (ex_flight (ex_day 10 + 3600) (ex_day 10 + 7200) 1 2 1000) (ex_day 10 + 3600) (@empty_pc NumZ) ex_params true;
+    @EUpdate NumZ ex_params 100 (ex_day 11);
+    @ECheckin NumZ (ex_flight (ex_day 12 + 3600) (ex_day 12 + 7200) 2 1 1000) (ex_day 12 + 3600) (@empty_pc NumZ) ex_params true;
+    @EUpdate NumZ ex_params 100 (ex_day 13);
+    @EPlan NumZ (ex_day 15) (ex_day 17 + 86399) 2000 2000 (ex_day 13) ex_pred;
+    @EUpdate NumZ ex_params 100 (ex_day 14);
+    @EUpdate NumZ ex_params 100 (ex_day 15);
+    @ECheckin NumZ (ex_flight (ex_day 15 + 3600) (ex_day 15 + 7200) 1 2 1000) (ex_day 15 + 3600) (@empty_pc NumZ) ex_params true ].
+
+Lemma ex_pred_ok : pred_ok ex_pred.
+Proof.
+  intros d s c. unfold ex_pred. cbn [pr_predict].
+  destruct (Z.leb_spec 1 s); cbn [andb]; [|discriminate]. destruct (Z.ltb_spec s 1000000); [|discriminate].
+  intros E. injection E as <-. unfold day_ok, two64, SecondsInDay. split; lia.
+Qed.
+Print Assumptions ex_pred_ok.
+
+Example C20_whole_history_hypotheses_hold_somewhere :
+  let before_last := fold_left (@apply_ev NumZ 3) (firstn 8 ex_history) (@new_traveller NumZ (ex_day 5)) in
+  conforming 3 0 (@new_traveller NumZ (ex_day 5)) ex_history /\
+  t_balance before_last = (-1800)%Z /\ mid_trip (t_hist before_last) = false /\
+  p_clear (t_kept before_last) = ex_day 18 /\          (* the stored clearance date: later than the check-in *)
+  p_clear (getp (t_book before_last) 1) = ex_day 15 /\  (* brought forward in the book *)
+  all_accepted 3 (@new_traveller NumZ (ex_day 5)) ex_history.
+Proof.
+  assert (Hp : Forall ev_pred_ok ex_history).
+  { unfold ex_history. repeat (apply Forall_cons; [first [exact ex_pred_ok | exact I]|]). apply Forall_nil. }
+  assert (Hc : conforming 3 0 (@new_traveller NumZ (ex_day 5)) ex_history).
+  { apply conformingb_sound; [exact Hp|vm_compute; reflexivity]. }
+  cbn zeta. split; [exact Hc|]. split; [vm_compute; reflexivity|]. split; [vm_compute; reflexivity|].
+  split; [vm_compute; reflexivity|]. split; [vm_compute; reflexivity|].
+  apply (C20_bot_history_every_checkin_accepted NumZ 3 ltac:(lia) ex_history 0 (ex_day 5) Hc).
+Qed.
 
 (** non-vacuity: float64 and exact arithmetic satisfy the two facts about zero, and an empty book is consistent *)
 Example C20_hypotheses_hold_somewhere :
